@@ -10,6 +10,7 @@ digest of the source contents.
 usage: migrate_store.py [N]  (seed from VERIF_SEED) -> JSON report, last line of stdout
 """
 import logging; logging.disable(logging.CRITICAL)  # noqa: E702
+import _memfs  # noqa: E402
 import hashlib, json, os, random, sys, tempfile  # noqa: E401
 
 SRC = os.environ.get("PYVC_REPO_SRC", "/repo/src")
@@ -92,6 +93,7 @@ def main():
     rng = random.Random(int(os.environ.get("VERIF_SEED", "1")))
     failures = []
     for _ in range(n):
+        _memfs.reset()
         try:
             failures += run_one(rng)
         except Exception as e:  # noqa: BLE001
